@@ -15,7 +15,7 @@ Proof.
 Qed.
 
 Lemma frame_info_ext : forall s s', fp s' = fp s ->
-  (forall k, k < fp s + 4 -> sget (stk s') k = sget (stk s) k) -> frame_info s' = frame_info s.
+  (forall k, fp s <= k < fp s + 4 -> sget (stk s') k = sget (stk s) k) -> frame_info s' = frame_info s.
 Proof.
   intros s s' Hf H. unfold frame_info. rewrite Hf. rewrite !H by lia. reflexivity.
 Qed.
@@ -82,3 +82,84 @@ Proof.
             inversion H; subst s'; cbn [stk fp]; split; [reflexivity|]; eapply prim_step_shape; eassumption).
   all: cbn [alloc] in H; crush_match H; inversion H; subst s'; cbn [stk fp]; (split; [reflexivity|]); shape_any.
 Qed.
+
+Lemma list_set_length : forall (A : Type) (l : list A) n v, length (list_set l n v) = length l.
+Proof. induction l as [|x l IH]; intros [|n] v; simpl; auto. Qed.
+
+Lemma list_set_other : forall (A : Type) (l : list A) n m v, n <> m -> nth_error (list_set l n v) m = nth_error l m.
+Proof.
+  induction l as [|x l IH]; intros [|n] [|m] v H; simpl; auto; try congruence.
+Qed.
+
+Lemma sget_list_set_other : forall r a k v, a < length r -> k < length r -> k <> a ->
+  sget (list_set r (length r - 1 - a) v) k = sget r k.
+Proof.
+  intros r a k v Ha Hk Hne. unfold sget. rewrite list_set_length.
+  destruct (k <? length r); [|reflexivity]. apply list_set_other. lia.
+Qed.
+
+(** LOCAL-SET k writes stack[fp-1-k]: an argument (below fp) or a local (at or above fp+4) *)
+Lemma local_set_quiet : forall s s' k,
+  nth_error (code_of (self s)) (ip s) = Some (ILocalSet k) ->
+  fp s + 4 + 1 <= length (stk s) ->
+  (forall a, slot (fp s) k = Some a -> a < fp s \/ fp s + 4 <= a) ->
+  step s = Next s' -> chain_step s s'.
+Proof.
+  intros s s' k Hi L Hk H. apply cs_quiet; [assumption| |]; unfold step in H; rewrite Hi in H; cbv zeta in H;
+    destruct (stk s) as [|v r] eqn:Est; try discriminate;
+    destruct (slot (fp s) k) as [a|] eqn:Sl; try discriminate;
+    unfold sset in H; destruct (a <? length r) eqn:La; try discriminate; inversion H; subst s'; cbn [stk fp]; [reflexivity|].
+  apply frame_info_ext; [reflexivity|]. cbn [stk fp]. intros j Hj. rewrite Est.
+  apply Nat.ltb_lt in La. simpl length in L.
+  rewrite sget_push by lia. apply sget_list_set_other; try lia.
+  destruct (Hk a eq_refl); lia.
+Qed.
+
+Definition local_set_ok (s : state) (i : instr) : Prop :=
+  match i with
+  | ILocalSet k => forall a, slot (fp s) k = Some a -> a < fp s \/ fp s + 4 <= a
+  | _ => True
+  end.
+
+(** the [cs_quiet] premise of [tail_loop_bounded], for EVERY opcode of the model VM that is not a
+    call or a return: if the operands the instruction pops lie above the frame header, the step
+    keeps fp and the header, i.e. it is a [chain_step] *)
+Theorem noncall_step_quiet : forall s s' i,
+  nth_error (code_of (self s)) (ip s) = Some i -> is_ctl i = false ->
+  fp s + 4 + pops i <= length (stk s) -> local_set_ok s i ->
+  step s = Next s' -> chain_step s s'.
+Proof.
+  intros s s' i Hi Hc L Hk H.
+  destruct i; try solve [eapply local_set_quiet; eauto];
+    match goal with Hi' : nth_error _ _ = Some ?i |- _ =>
+      destruct (step_shape s s' i Hi' Hc) as [Hf [pre [pre' [r [E [E' Lp]]]]]];
+        [intros k0; discriminate|assumption|]
+    end;
+    eapply shared_base_quiet; try eassumption; rewrite E, app_length in L; cbn [pops] in *; lia.
+Qed.
+
+(** hence: a run of the model VM in which no instruction returns and every call is a TAIL-CALL keeps
+    the frame base, whatever the instructions in between are *)
+Definition step_ok (s : state) : Prop :=
+  match nth_error (code_of (self s)) (ip s) with
+  | Some (ITailCall _) => exists proc r, stk s = proc :: r
+  | Some i => is_ctl i = false /\ fp s + 4 + pops i <= length (stk s) /\ local_set_ok s i
+  | None => False
+  end.
+
+Inductive run_ok : nat -> state -> state -> Prop :=
+| run_0 : forall s, run_ok 0 s s
+| run_S : forall n s s' s'', run_ok n s s' -> step_ok s' -> step s' = Next s'' -> run_ok (S n) s s''.
+
+Lemma run_ok_chain : forall n s s', run_ok n s s' -> chain n s s'.
+Proof.
+  induction 1 as [|n s s' s'' H IH Hok Hs]; [constructor|].
+  econstructor; [exact IH|]. unfold step_ok in Hok.
+  destruct (nth_error (code_of (self s')) (ip s')) as [i|] eqn:Hi; [|contradiction].
+  destruct i; try (destruct Hok as [A [B C]]; eapply noncall_step_quiet; eassumption).
+  destruct Hok as [proc [r E]]. eapply cs_tail; eassumption.
+Qed.
+
+Theorem tail_run_bounded : forall n s s' b,
+  base_of s = Some b -> run_ok n s s' -> base_of s' = Some b.
+Proof. intros n s s' b Hb H. eapply tail_loop_bounded; [exact Hb|apply run_ok_chain; exact H]. Qed.
